@@ -47,7 +47,8 @@ PROBES = ["fault", "share", "agree", "fault_ske", "fault_cv13_server",
           "fault_cv_client", "fault_pha", "rsa", "ecdsa", "eddsa", "dsa",
           "share_ffdh", "share_ecdh", "share_x25519", "share_x448",
           "share_tls13_client", "share_tls13_server", "share_ske",
-          "share_cke", "aborted_internal_error"]
+          "share_cke", "aborted_internal_error",
+          "agree_ffdhe_tls13_volume"]
 COMPONENTS_REAL = ["tlslite key classes, KeyExchange classes, verify-after-"
                    "sign paths, share validation"]
 COMPONENTS_STUB = ["socket", "os.urandom", "clock", "private-key primitive "
@@ -74,6 +75,12 @@ def plan(tier, base_seed):
     fams = ["fault", "share", "share", "fault", "agree"]
     jobs = [{"seed": base_seed * 1000003 + i, "fam": fams[i % 5]}
             for i in range(n)]
+    # TLS 1.3 FFDHE pads the shared secret to the prime length while TLS 1.2
+    # strips leading zeros: the two code paths only differ when the top
+    # octet of g^xy is zero (1 in 256), so this cell needs volume
+    m = {"quick": 1100, "thorough": 40000}[tier]
+    jobs += [{"seed": base_seed * 1000003 + 500000 + i, "fam": "agree",
+              "force": ["ffdhe2048", True]} for i in range(m)]
     for j in jobs[:3]:
         j["keep"] = True
     return jobs
@@ -498,8 +505,11 @@ def run_share(job, ch, seed, v, viol, probes, ctx):
 
 def run_agree(job, ch, seed, v, viol, probes, ctx):
     g = GROUPS[ch.draw(len(GROUPS), "a.group")]
-    gk = group_kind(g)
     tls13 = ch.draw(2, "a.13") == 1 and g != "brainpoolP256r1"
+    if job.get("force"):
+        g, tls13 = job["force"]
+        probes["agree_ffdhe_tls13_volume"] = 1
+    gk = group_kind(g)
     ver = (3, 4) if tls13 else [(3, 3), (3, 1), (3, 2)][ch.draw(3, "a.ver")]
     sc = {"version": list(ver), "flavour": "cert", "skey": "rsa",
           "cset": {"minVersion": list(ver), "maxVersion": list(ver)},
@@ -519,7 +529,8 @@ def run_agree(job, ch, seed, v, viol, probes, ctx):
     ctx[0] = "[agree group=%s scenario=%s]" % (g, json.dumps(sc,
                                                              sort_keys=True))
     sim = nodes.new_run(seed, chooser=ch, max_steps=100000)
-    pair = nodes.Pair(sim, sc, policy="random", wb_budget=kernel.Budget(10),
+    pair = nodes.Pair(sim, sc, policy="ideal" if job.get("force")
+                      else "random", wb_budget=kernel.Budget(10),
                       delay_budget=kernel.Budget(10))
     oc, os_, st = pair.handshake()
     ok = oc.kind == "ok" and os_.kind == "ok"
@@ -532,7 +543,8 @@ def run_agree(job, ch, seed, v, viol, probes, ctx):
             if vc[f] != vs[f]:
                 v("secret_mismatch", "%s|%s" % (g, f), "%s differs after an "
                   "honest %s exchange" % (f, g))
-    return _res(job, ch, sim, sc, viol, probes, ok, "agree:" + g)
+    return _res(job, ch, sim, sc, viol, probes, ok,
+                "agree:%s:%d" % (g, seed))
 
 
 def _res(job, ch, sim, sc, viol, probes, nontrivial, tag):
